@@ -300,6 +300,8 @@ def run(P, R, tier):
     nan_rule(P, R)
     ssorder_rule(P, R)
     onceflag_rule(P, R)
+    dumprange_rule(P, R)
+    binkinds_rule(P, R)
     # ------------------------------------------------------------------ C10.findopt
     R.rule("C10.findopt", "CParser::find_option: lower-cased token, exact match first, then first entry that begins with it", minimum=1)
     shape, desc = rawio.find_option_shape(P)
@@ -990,3 +992,128 @@ def onceflag_rule(P, R):
                             file=f["file"], line=line, function=f["q"])
     if n < 5:
         R.anchor_missing("C10.onceflag", "only %d one-shot flags found in the RAW readers" % n)
+
+
+def dumprange_rule(P, R):
+    """`DUMP -all` (and a kind named without numbers, and the TRANSPORT -dump file) writes every stored entity through the template
+    Utilities::Rxn_dump_raw, which filters on the user number: negative numbers are the engine's scratch copies, every number >= 0
+    is the user's - 0 is the inflow solution of a column.  The guard of the dump_raw call is evaluated for n = 0, 1, 1000 (must pass)
+    and n = -1, -2 (scratch, must not pass); all instantiations must agree."""
+    RULE = "C10.dumprange"
+    R.rule(RULE, "Rxn_dump_raw writes the entities numbered 0 and up and none of the negative scratch numbers (every instantiation)", minimum=8)
+    fs = [g for g in P.functions.values() if g["q"].startswith("Utilities::Rxn_dump_raw<")]
+    if len(fs) < 8:
+        R.anchor_missing(RULE, "only %d instantiations of Utilities::Rxn_dump_raw" % len(fs))
+        return
+
+    def val(e, n):
+        e = T.strip_casts(e)
+        if not T.is_node(e):
+            return None
+        if e[0] == "Paren":
+            return val(e[2], n)
+        if e[0] == "Member" and e[2].endswith("::first"):
+            return n
+        if e[0] == "Call" and T.callee_name(e) == "Get_n_user":
+            return n
+        if e[0] == "Un" and e[2] == "-":
+            v = val(e[3], n)
+            return None if v is None else -v
+        if e[0] == "Un" and e[2] == "!":
+            v = val(e[3], n)
+            return None if v is None else (not v)
+        if e[0] == "Bin" and e[2] in ("&&", "||"):
+            a, b = val(e[3], n), val(e[4], n)
+            if a is None or b is None:
+                return None
+            return (a and b) if e[2] == "&&" else (a or b)
+        if e[0] == "Bin" and e[2] in (">", ">=", "<", "<=", "==", "!="):
+            a, b = val(e[3], n), val(e[4], n)
+            if a is None or b is None:
+                return None
+            return {">": a > b, ">=": a >= b, "<": a < b, "<=": a <= b, "==": a == b, "!=": a != b}[e[2]]
+        return T.lit_value(e)
+    for g in sorted(fs, key=lambda f: f["q"]):
+        inst = g["q"][len("Utilities::Rxn_dump_raw<"):-1].replace("std::map<int, ", "").rstrip(">")
+        guards = []
+
+        def rec(node, conds):
+            if not T.is_node(node):
+                return
+            if node[0] == "Call" and T.callee_name(node) == "dump_raw":
+                guards.append(list(conds))
+            if node[0] == "If":
+                rec(node[2], conds)
+                rec(node[3], conds + [node[2]])
+                rec(node[4], conds)
+                return
+            for ch in T.children(node):
+                rec(ch, conds)
+        rec(g["body"], [])
+        if not guards:
+            R.anchor_missing(RULE, "%s: no dump_raw call" % g["q"])
+            continue
+        bad = None
+        for conds in guards:
+            for n, want in ((0, True), (1, True), (1000, True), (-1, False), (-2, False)):
+                got = True
+                for c in conds:
+                    v = val(c, n)
+                    if v is None:
+                        got = None
+                        break
+                    got = got and bool(v)
+                if got is None:
+                    bad = ("cannot evaluate the guard for n = %d" % n, None)
+                elif got != want:
+                    bad = ("an entity numbered %d is %s" % (n, "written (scratch copy of the engine)" if got else "left out of the dump"), n)
+        if bad and bad[1] is None:
+            R.anchor_missing(RULE, "%s: %s" % (g["q"], bad[0]))
+        elif bad:
+            R.violation(RULE, inst, "Rxn_dump_raw: %s: DUMP -all / TRANSPORT -dump then %s" % (bad[0], "lose it - reading the dump back does not reproduce the state (solution 0 is the inflow of a column)" if bad[1] >= 0 else "expose internal copies"),
+                        file=g["file"], line=g["line"], function=g["q"])
+        else:
+            R.ok(RULE, inst, "numbers 0, 1, 1000 written; -1, -2 skipped")
+
+
+def binkinds_rule(P, R):
+    """The storage bin is a copy of the reaction state by kind: one std::map<int, cxxX> member per kind.  Each of its writers
+    (dump_raw, dump_raw(n), dump_raw_range - the TRANSPORT -dump restart file is written by the first) and each of its readers
+    (read_raw, read_raw_keyword) must handle every kind the bin stores: a kind a writer forgets is missing from the restart
+    file, a kind a reader forgets is lost when the text is read into a bin."""
+    RULE = "C10.binkinds"
+    R.rule(RULE, "every entity kind stored in cxxStorageBin is written by each of its dump functions and read by each of its RAW readers", minimum=50)
+    rec = P.records.get("cxxStorageBin")
+    if not rec:
+        R.anchor_missing(RULE, "class cxxStorageBin not found")
+        return
+    kinds = [(f["name"], f["type"].split(",")[-1].strip(" >")) for f in rec["fields"] if f["type"].startswith("std::map<int, cxx")]
+    if len(kinds) < 11:
+        R.anchor_missing(RULE, "cxxStorageBin: only %d entity maps" % len(kinds))
+        return
+    fns = [g for g in P.functions.values() if g["q"] in ("cxxStorageBin::dump_raw", "cxxStorageBin::dump_raw_range", "cxxStorageBin::read_raw", "cxxStorageBin::read_raw_keyword")]
+    if len(fns) != 5:
+        R.anchor_missing(RULE, "cxxStorageBin: %d dump/read functions (5 expected)" % len(fns))
+        return
+    for g in sorted(fns, key=lambda f: (f["q"], f["line"])):
+        refs = set()
+        for x in T.walk(g["body"]):
+            if x[0] == "Member" and x[2].startswith("cxxStorageBin::"):
+                refs.add(x[2].split("::")[-1])
+            if x[0] == "Call":
+                q = T.callee_q(x) or ""
+                if q.startswith("cxxStorageBin::Get_"):
+                    # Get_Solution(n) ... accessors of one kind: map them to the member through the returned class
+                    ret = str(x[2].get("ret", "")) if isinstance(x[2], dict) else ""
+                    for nm, cls in kinds:
+                        if cls in ret:
+                            refs.add(nm)
+        tag = "%s@%d" % (g["q"].split("::")[-1], g["line"])
+        for nm, cls in kinds:
+            inst = "%s:%s" % (tag, nm)
+            if nm in refs:
+                R.ok(RULE, inst, "handled")
+            else:
+                R.violation(RULE, inst, "%s (line %d) does not handle the bin member %s (%s): %s" % (g["q"], g["line"], nm, cls,
+                            "the kind is missing from the text it writes (TRANSPORT -dump restart file, per-cell dumps)" if "dump" in g["q"] else "the kind is dropped when RAW text is read into a bin"),
+                            file=g["file"], line=g["line"], function=g["q"])
